@@ -54,10 +54,35 @@ func crafted() []string {
 		{Obj: "group:a", Rel: "member", User: "team:b#member"}, {Obj: "team:b", Rel: "member", User: "group:a#member"},
 		{Obj: "group:a", Rel: "member", User: "org:o#member"}, {Obj: "org:o", Rel: "member", User: "user:x"},
 	}
-	return []string{encode(m, ts, tuples, []step{
+	out := []string{encode(m, ts, tuples, []step{
 		{rq: fga.Req{Obj: "group:a", Rel: "member", User: "user:x"}},
 		{rq: fga.Req{Obj: "team:b", Rel: "member", User: "user:x"}},
 	})}
+	// a DISPATCHED sub-problem whose answer depends on the request context / on a contextual tuple: the
+	// sub-problem key must carry both (not only the key of the root request)
+	cm := &fga.Model{Types: []*fga.TypeDef{{Name: "user"},
+		{Name: "team", Rels: []*fga.RelDef{{Name: "member", Rewrite: this(), Restrs: []fga.Restr{u}}}},
+		{Name: "group", Rels: []*fga.RelDef{{Name: "member", Rewrite: this(), Restrs: []fga.Restr{{Typ: "user", Cond: "c1"}, {Typ: "team", Rel: "member"}}}}},
+		{Name: "doc", Rels: []*fga.RelDef{{Name: "viewer", Rewrite: this(), Restrs: []fga.Restr{{Typ: "group", Rel: "member"}}}}}},
+		Conds: []*fga.CondDef{{Name: "c1", Param: "x", Op: "lt", Const: 10}}}
+	cts, err := typesystem.NewAndValidate(context.Background(), cm.Proto(fgarun.ModelID))
+	if err != nil {
+		panic(err)
+	}
+	ctup := []fga.Tuple{
+		{Obj: "doc:1", Rel: "viewer", User: "group:g#member"}, {Obj: "group:g", Rel: "member", User: "user:x", Cond: "c1"},
+		{Obj: "doc:2", Rel: "viewer", User: "group:h#member"}, {Obj: "group:h", Rel: "member", User: "team:t#member"},
+	}
+	tm := fga.Tuple{Obj: "team:t", Rel: "member", User: "user:x"}
+	out = append(out, encode(cm, cts, ctup, []step{
+		{rq: fga.Req{Obj: "doc:1", Rel: "viewer", User: "user:x", Ctx: []fga.KV{{K: "x", V: 5}}}},
+		{rq: fga.Req{Obj: "doc:1", Rel: "viewer", User: "user:x", Ctx: []fga.KV{{K: "x", V: 20}}}},
+		{rq: fga.Req{Obj: "doc:1", Rel: "viewer", User: "user:x", Ctx: []fga.KV{{K: "x", V: 5}}}},
+		{rq: fga.Req{Obj: "doc:2", Rel: "viewer", User: "user:x"}, ctxT: []fga.Tuple{tm}},
+		{rq: fga.Req{Obj: "doc:2", Rel: "viewer", User: "user:x"}},
+		{rq: fga.Req{Obj: "doc:2", Rel: "viewer", User: "user:x"}, ctxT: []fga.Tuple{tm}},
+	}))
+	return out
 }
 
 func gen(r *hx.Rand, n int, tier string, emit func(string), st *hx.Stats) {
